@@ -370,6 +370,16 @@ where
     }
 
     /// Recursively find all `any` variables referenced by the LTerm.
+    fn anyvars_compound(compound: &dyn CompoundObject<U, E>) -> Vec<LTerm<U, E>> {
+        match compound.as_term() {
+            Some(term) => term.anyvars(),
+            None => compound
+                .children()
+                .flat_map(|child| LTerm::anyvars_compound(child))
+                .collect(),
+        }
+    }
+
     pub fn anyvars(self: &LTerm<U, E>) -> Vec<LTerm<U, E>> {
         match self.as_ref() {
             LTermInner::Cons(head, tail) => {
@@ -380,6 +390,7 @@ where
                 }
                 vars
             }
+            LTermInner::Compound(compound) => LTerm::anyvars_compound(compound.as_ref()),
             _ => {
                 if self.is_any() {
                     vec![self.clone()]
